@@ -18,6 +18,18 @@ impl FrameStack {
     pub(crate) fn verif_frames_len(&self) -> Option<usize> { self.frames.as_ref().map(|f| f.len()) }
 }
 
+/// Contract stub of `FrameStack::push_frame` for the L2 step obligations: depth + 1 (discharged by `depth_contract`)
+/// and, with debug frames on, one entry holding exactly the caller, callee and kind passed (discharged by
+/// `debug_frame_*`).  Records what it was called with so that the step obligations can compare the frame the
+/// real step pushes with the one the ISA reference prescribes.
+pub(crate) static mut PUSHED: [Option<(u16, u16, u8)>; 2] = [None; 2];
+pub(crate) static mut PUSHED_N: usize = 0;
+pub(crate) fn contract_push_frame(fs: &mut FrameStack, caller: u16, callee: u16, frame_type: FrameType, _regs: &RegFile, _mem: &MemArray) {
+    fs.frame_no += 1;
+    let k = match frame_type { FrameType::Subroutine => 0, FrameType::Trap => 1, FrameType::Interrupt => 2 };
+    unsafe { if PUSHED_N < 2 { PUSHED[PUSHED_N] = Some((caller, callee, k)); } PUSHED_N += 1; }
+}
+
 /// L0: push_frame / pop_frame without debug frames: depth +1 / saturating -1, never panics below u64::MAX.
 #[kani::proof]
 #[kani::stub(std::hash::RandomState::new, stub_random_state)]
@@ -41,16 +53,13 @@ fn depth_contract() {
 }
 
 /// C27 with debug frames, no signature registered for the callee: the frame records caller, callee, kind.
-#[kani::proof]
-#[kani::stub(std::hash::RandomState::new, stub_random_state)]
-#[kani::unwind(9)]
-fn debug_frame_no_signature() {
+/// (PRE = number of frames already on the list; concrete sizes: allocations of symbolic size are what CBMC cannot digest.)
+fn debug_frame_case<const PRE: usize>() {
     let d: u64 = kani::any();
     kani::assume(d < u64::MAX);
     let mut frames: Vec<Frame> = Vec::with_capacity(4);
-    let pre: bool = kani::any();
-    if pre { frames.push(Frame { caller_addr: 1, callee_addr: 2, frame_type: FrameType::Trap, frame_ptr: None, arguments: Vec::new() }); }
-    let n0 = frames.len();
+    let mut i = 0;
+    while i < PRE { frames.push(Frame { caller_addr: 1, callee_addr: 2, frame_type: FrameType::Trap, frame_ptr: None, arguments: Vec::new() }); i += 1; }
     let mut fs = FrameStack::verif_with_frames(d, frames);
     let regs = RegFile::verif_any();
     let mem = MemArray::verif_any();
@@ -60,44 +69,83 @@ fn debug_frame_no_signature() {
     let ft = match k { 0 => FrameType::Subroutine, 1 => FrameType::Trap, _ => FrameType::Interrupt };
     fs.push_frame(caller, callee, ft, &regs, &mem);
     assert!(fs.len() == d + 1, "C27.debug: depth + 1");
-    let fr = fs.frames().unwrap();
-    assert!(fr.len() == n0 + 1, "C27.debug: exactly one entry added");
-    let top = &fr[n0];
-    assert!(top.caller_addr == caller && top.callee_addr == callee && top.frame_type == ft, "C27.debug: entry holds caller, callee and kind");
-    assert!(top.frame_ptr.is_none() && top.arguments.is_empty(), "C27.debug: no signature -> no arguments");
+    assert!(fs.verif_frames_len() == Some(PRE + 1), "C27.debug: exactly one entry added");
+    {
+        let fr = fs.frames().unwrap();
+        let top = &fr[PRE];
+        assert!(top.caller_addr == caller && top.callee_addr == callee && top.frame_type == ft, "C27.debug: entry holds caller, callee and kind");
+        assert!(top.frame_ptr.is_none() && top.arguments.is_empty(), "C27.debug: no signature -> no arguments");
+    }
     fs.pop_frame();
-    assert!(fs.len() == d && fs.frames().unwrap().len() == n0, "C27.debug: pop removes the entry");
+    assert!(fs.len() == d && fs.verif_frames_len() == Some(PRE), "C27.debug: pop removes the entry");
+    std::mem::forget(fs);
 }
+#[kani::proof] #[kani::stub(std::hash::RandomState::new, stub_random_state)] #[kani::unwind(9)]
+fn debug_frame_0() { debug_frame_case::<0>() }
+#[kani::proof] #[kani::stub(std::hash::RandomState::new, stub_random_state)] #[kani::unwind(9)]
+fn debug_frame_1() { debug_frame_case::<1>() }
 
-/// C27: arguments described by a registered pass-by-register signature (<= 2 parameters) or the standard
-/// calling convention (<= 2 parameters, read from FP+4.. where FP = R6 - 4).
-#[kani::proof]
-#[kani::unwind(9)]
-fn get_arguments_contract() {
+/// C27: arguments described by a pass-by-register signature (N parameters) or the standard calling
+/// convention (N parameters, read from FP+4.. where FP = R6 - 4).
+fn arguments_case<const N: usize>() {
     let regs = RegFile::verif_any();
     let mem = MemArray::verif_any();
     let snapshot = regs.verif_snapshot();
-    let n: usize = kani::any();
-    kani::assume(n <= 2);
     let (a, b): (u8, u8) = (kani::any(), kani::any());
     kani::assume(a < 8 && b < 8);
     let (ra, rb) = (Reg::try_from(a).unwrap(), Reg::try_from(b).unwrap());
     let mut params: Vec<(String, Reg)> = Vec::with_capacity(2);
-    if n >= 1 { params.push((String::new(), ra)); }
-    if n >= 2 { params.push((String::new(), rb)); }
+    if N >= 1 { params.push((String::new(), ra)); }
+    if N >= 2 { params.push((String::new(), rb)); }
     let pl = ParameterList::PassByRegister { params, ret: None };
     let args = pl.get_arguments(&regs, &mem, kani::any());
-    assert!(args.len() == n, "C27.args: one argument per parameter");
-    if n >= 1 { assert!(args[0] == snapshot[a as usize], "C27.args: first argument from its register"); }
-    if n >= 2 { assert!(args[1] == snapshot[b as usize], "C27.args: second argument from its register"); }
-
+    assert!(args.len() == N, "C27.args: one argument per parameter");
+    if N >= 1 { assert!(args[0] == snapshot[a as usize], "C27.args: first argument from its register"); }
+    if N >= 2 { assert!(args[1] == snapshot[b as usize], "C27.args: second argument from its register"); }
     let fp: u16 = kani::any();
     let mut names: Vec<String> = Vec::with_capacity(2);
-    if n >= 1 { names.push(String::new()); }
-    if n >= 2 { names.push(String::new()); }
-    let pl = ParameterList::CallingConvention { params: names };
-    let args = pl.get_arguments(&regs, &mem, fp);
-    assert!(args.len() == n, "C27.args: one argument per parameter (calling convention)");
-    if n >= 1 { assert!(args[0] == mem[fp.wrapping_add(4)], "C27.args: first argument at FP+4"); }
-    if n >= 2 { assert!(args[1] == mem[fp.wrapping_add(5)], "C27.args: second argument at FP+5"); }
+    if N >= 1 { names.push(String::new()); }
+    if N >= 2 { names.push(String::new()); }
+    let pl2 = ParameterList::CallingConvention { params: names };
+    let args2 = pl2.get_arguments(&regs, &mem, fp);
+    assert!(args2.len() == N, "C27.args: one argument per parameter (calling convention)");
+    if N >= 1 { assert!(args2[0] == mem[fp.wrapping_add(4)], "C27.args: first argument at FP+4"); }
+    if N >= 2 { assert!(args2[1] == mem[fp.wrapping_add(5)], "C27.args: second argument at FP+5"); }
+    std::mem::forget((pl, pl2, args, args2));
+}
+#[kani::proof] #[kani::unwind(9)] fn arguments_0() { arguments_case::<0>() }
+#[kani::proof] #[kani::unwind(9)] fn arguments_1() { arguments_case::<1>() }
+#[kani::proof] #[kani::unwind(9)] fn arguments_2() { arguments_case::<2>() }
+
+/// C27: a signature registered for the callee describes the arguments of its frames; registering again replaces
+/// the earlier signature.  BOUNDED: one callee at a concrete address (hashing a symbolic key is out of reach),
+/// one-parameter signatures; register choice and machine state symbolic.
+#[kani::proof]
+#[kani::stub(std::hash::RandomState::new, stub_random_state)]
+#[kani::unwind(9)]
+fn debug_frame_with_signature() {
+    const CALLEE: u16 = 0x4000;
+    let frames: Vec<Frame> = Vec::with_capacity(4);
+    let mut fs = FrameStack::verif_with_frames(kani::any::<u64>() >> 1, frames);
+    let regs = RegFile::verif_any();
+    let mem = MemArray::verif_any();
+    let snapshot = regs.verif_snapshot();
+    let (a, b): (u8, u8) = (kani::any(), kani::any());
+    kani::assume(a < 8 && b < 8);
+    let mut p1: Vec<(String, Reg)> = Vec::with_capacity(1); p1.push((String::new(), Reg::try_from(a).unwrap()));
+    let mut p2: Vec<(String, Reg)> = Vec::with_capacity(1); p2.push((String::new(), Reg::try_from(b).unwrap()));
+    fs.set_subroutine_def(CALLEE, ParameterList::PassByRegister { params: p1, ret: None });
+    fs.set_subroutine_def(CALLEE, ParameterList::PassByRegister { params: p2, ret: None });   // re-registration replaces
+    match fs.get_subroutine_def(CALLEE) {
+        Some(ParameterList::PassByRegister { params, .. }) => assert!(params.len() == 1 && params[0].1.reg_no() == b, "C27.sig: the signature registered last is the callee's signature"),
+        _ => assert!(false, "C27.sig: a registered signature can be queried"),
+    }
+    let caller: u16 = kani::any();
+    fs.push_frame(caller, CALLEE, FrameType::Subroutine, &regs, &mem);
+    {
+        let fr = fs.frames().unwrap();
+        assert!(fr.len() == 1 && fr[0].caller_addr == caller && fr[0].callee_addr == CALLEE && fr[0].frame_type == FrameType::Subroutine, "C27.debug: entry holds caller, callee and kind");
+        assert!(fr[0].arguments.len() == 1 && fr[0].arguments[0] == snapshot[b as usize] && fr[0].frame_ptr.is_none(), "C27.sig: arguments are those described by the registered signature");
+    }
+    std::mem::forget(fs);
 }
